@@ -5,6 +5,7 @@ import (
 	"go/token"
 	"go/types"
 	"sort"
+	"strings"
 )
 
 func init() { register("C03", checkC03) }
@@ -124,7 +125,13 @@ func checkC03(c *Check) {
 				}
 				c.Hold(rule, r.Kind+":"+r.Fn+"@"+r.Entry, r.Pos, false, msg+" [entry="+r.Entry+" via="+r.Via+" state="+r.State+"]")
 			}
-			if len(cfg.reports) == 0 {
+			anyImmut := false
+			for _, r := range cfg.reports {
+				if strings.HasPrefix(r.Kind, "store-while-open") {
+					anyImmut = true
+				}
+			}
+			if !anyImmut {
 				c.Hold("immut", "Session.mailFrom", token.NoPos, true, "")
 			}
 		}
